@@ -250,8 +250,10 @@ Lemma coded_model_fit_inside : forall wc c sims,
   model_fit coded_checker coded_calls wc c sims <> OCtor -> target_inside c = true.
 Proof.
   intros wc c sims Hb H. unfold model_fit in H. rewrite Hb in H.
+  destruct (is3d (fc_trng c) && negb (wc_time_key wc && fc_multi c)); [exfalso; apply H; reflexivity|].
+  destruct (out_slices (fc_trng c)) as [[tm tr] tc].
   destruct (ctor_check coded_checker coded_calls c sims) eqn:E.
   - apply (coded_ctor_inside c sims E).
-  - destruct (fc_trng c); exfalso; apply H; reflexivity.
-  - destruct (fc_trng c); exfalso; apply H; reflexivity.
+  - exfalso; apply H; reflexivity.
+  - exfalso; apply H; reflexivity.
 Qed.
